@@ -278,7 +278,20 @@ def lean_request(p):
     if f == "concat":
         return {"op": "DC.run", "f": "concat", "tables": [cols(t) for t in p["tables"]]}
     if f == "eq":
-        return None
+        if p.get("eqmode") == "narrow":
+            return None      # fields of different widths: numpy's broadcasting inside the field comparison is not in the model
+        c1 = cols(p["cols"])
+        if len(c1) == 0 or len(c1[0]["v"]) == 0:
+            return None
+        import copy
+        c2 = copy.deepcopy(c1)
+        if p.get("eqmode") == "one_cell":
+            last = c2[-1]["v"][-1]
+            last[-1] = last[-1] + 1
+        elif p.get("flip") and len(c1[0]["v"]) >= 2:
+            for c in c2:
+                c["v"] = c["v"][::-1]
+        return {"op": "DC.run", "f": "eq", "cols": c1, "cols2": c2}
     r = {"op": "DC.run", "f": f, "cols": cols(p["cols"])}
     if f == "getitem":
         r["sel"] = p["sel"]
